@@ -57,6 +57,10 @@ pub fn sanitise(mut line: Vec<u8>) -> Vec<u8> {
     line
 }
 
+fn no_line_break(b: u8) -> bool {
+    b != b'\n'
+}
+
 fn interesting_byte() -> BoxedStrategy<u8> {
     prop_oneof![
         6 => 0x21u8..0x7f,
@@ -81,6 +85,8 @@ pub fn arg_bytes() -> BoxedStrategy<Vec<u8>> {
         5 => prop::sample::select(vec!["/usr/pkg", "bin/foo", "0644", "root", "wheel", "pkg-1.0", "foo>=1.0", "preserve", "a", "/", "echo hi  there "]).prop_map(|s| s.as_bytes().to_vec()),
         3 => utf8_text(),
         2 => prop::collection::vec(interesting_byte(), 1..12),
+        // tokens of the library's own source, alone or after ordinary text
+        2 => (prop::option::of(utf8_text()), crate::engine::dict::byte_token(no_line_break, b"a")).prop_map(|(pre, t)| [pre.unwrap_or_default(), t].concat()),
         1 => utf8_text().prop_map(|mut v| { v.push(0xf8); v }),
         // a multi-byte character cut short (1, 2 or 3 of its bytes), at the end or in the middle
         2 => (utf8_text(), prop::sample::select(vec![&b"\xc3"[..], b"\xe2\x82", b"\xf0\x9f\x92", b"\xf0\x9f", b"\xf0", b"\xe2", b"\xed\xa0\x80", b"\xc0\x80", b"\xef\xbb\xbf"]), prop::option::of(utf8_text()))
@@ -103,6 +109,7 @@ fn file_line() -> BoxedStrategy<Vec<u8>> {
         // lines made only of multi-byte Unicode white space are file names like any other
         1 => prop::sample::select(vec!["\u{3000}", "\u{a0}", "\u{2003}\u{2003}", "\u{2028}", "\u{85}", " \u{a0}", "\u{feff}", "\u{feff}bin/foo", "\u{feff}@name x-1", "\u{feff}\u{feff}"]).prop_map(|s| s.as_bytes().to_vec()),
         1 => prop::collection::vec(interesting_byte(), 100..600),
+        2 => (prop::option::of(utf8_text()), crate::engine::dict::byte_token(no_line_break, b"a"), prop::option::of(utf8_text())).prop_map(|(pre, t, post)| [pre.unwrap_or_default(), t, post.unwrap_or_default()].concat()),
     ]
     .prop_map(|mut v| {
         // a file line is any line not starting with '@'
